@@ -22,6 +22,7 @@ TREE_FILES = {
     'root/bs\\name.txt': b'inside, backslash in the name',
     'root/..hidden': b'inside dotdot-prefixed name',
     'root/a..b': b'inside a..b',
+    'root/\xe9 \u20ac.txt': b'inside, non-ASCII name',
     'root/root2/inner.txt': b'inside root/root2',
     'root2/secret.txt': DECOY,
     'root2/a.txt': DECOY,
@@ -42,10 +43,10 @@ ROOTS = [
     ('work', '../root'), ('work/nested', '../../root/'), ('root2', '../root'),
     # other roots, so that "root" is itself a sibling / a parent / missing
     ('', '{T}/root2'), ('', 'root2/'), ('', '{T}/root/sub'), ('root', 'sub'), ('', '{T}'), ('', '{T}/'),
-    ('', '{T}/missing'), ('', 'missing/'), ('', '/'), ('', '//'),
+    ('', '{T}/missing'), ('', 'missing/'), ('', '/'), ('', '//'), ('', '{T}/root/a.txt'), ('root', 'a.txt/'),
 ]
 
-NAMES = ['a.txt', 'index.html', 'sub', 'b.txt', 'deep', 'c.txt', 'noaccess.txt', 'dir.d', 'missing.txt', 'we ird.txt',
+NAMES = ['a.txt', '\xe9 \u20ac.txt', 'index.html', 'sub', 'b.txt', 'deep', 'c.txt', 'noaccess.txt', 'dir.d', 'missing.txt', 'we ird.txt',
          'bs\\name.txt', '..hidden', 'a..b', 'secret.txt', 'secret_above.txt', 'inner.txt', 'empty']
 SIBLINGS = ['root', 'root2', 'rootx', 'root.bak', 'other', 'work']
 SEGS = NAMES + SIBLINGS + ['.', '..', '..', '..', '', '...', ' ', '.. ', ' ..']
@@ -65,7 +66,7 @@ NAMED = [
     '{T}/root/../root2/secret.txt', '/etc/passwd', '//etc/passwd', '../../../../../../../../etc/passwd',
     '....//....//etc/passwd', '..hidden', 'a..b', '..hidden/..', 'root2/inner.txt', 'root2/../../root2/secret.txt',
     '2/secret.txt', '../root2', '..//root2//secret.txt', './../root2/secret.txt', 'sub/..\\../root2/secret.txt',
-    'we ird.txt', 'bs\\name.txt', 'a.txt\x00', 'a\x00.txt', '../root2/secret.txt\x00',
+    'we ird.txt', 'bs\\name.txt', '\xe9 \u20ac.txt', 'sub/../\xe9 \u20ac.txt', 'a.txt\x00', 'a\x00.txt', '../root2/secret.txt\x00',
 ]
 
 
@@ -175,7 +176,7 @@ class C16(Check):
     rule = ('os.path.normpath/join/abspath/strip against the model on generated paths and exhaustively over the '
             'alphabet {a . /} (length <= 9 quick / 10 thorough) and over segment lists from {a . .. ""} with 0-3 '
             'leading slashes; static_file on a real temporary tree (decoys above and beside the root, siblings root2 '
-            'rootx root.bak) for 32 root spellings (absolute/relative, trailing separators, dot segments, other '
+            'rootx root.bak) for 34 root spellings (absolute/relative, trailing separators, dot segments, other '
             'working directories) x file names built from names, ".", "..", "", sibling names, absolute prefixes and '
             'separators / \\ repeated; GET/HEAD, If-Modified-Since; compared: status, every path handed to open(), '
             'the path probed; non-trivial = the name contains "..", a backslash or starts with a separator')
